@@ -62,7 +62,9 @@ def gen_message(rng, simple=False):
     m = {"task_uuid": rng.choice(["a1b2c3d4-0000-4000-8000-%012d" % rng.randint(0, 10**9), "uuid-%d" % rng.randint(0, 99)]),
          "task_level": [rng.randint(1, 20) for _ in range(rng.randint(1, 5))],
          "timestamp": rng.choice([0.0, 1.0, 1e9 + 0.5, 1425356800.0, 1425356936.278875, 1790964959.7875454, 1e9 + 0.000001, 253402300799.999,
-                                  rng.uniform(0, 2e9), float(rng.randint(0, 2 * 10**9)), rng.randint(0, 2 * 10**9)])}
+                                  rng.uniform(0, 2e9), float(rng.randint(0, 2 * 10**9)), rng.randint(0, 2 * 10**9),
+                                  rng.randint(0, 2 * 10**9) + rng.choice([0.9999996, 0.9999999, 0.99999949, 0.9999995, 0.0000004, 0.0000005, 0.5, 0.999999]),
+                                  1443193754.9999997, 59.9999999, 86399.9999998])}
     r = rng.random()
     if r < 0.4:
         m["message_type"] = rng.choice(["app:msg", "", "eliot:traceback", gen.gen_text(rng, long_ok=False)])
